@@ -34,12 +34,13 @@ def enc_str_list(l):
 
 
 # CODE VARIANT FLAGS — the variant of the code the model is compared with (Model/Console.lean `Variant`).
-# Values match TODAY's /repo.
-# (For checking a pending fix:  VERIF_REPO=<worktree> VERIF_C15_FLAGS=<4 digits> ./check C15  overrides them for one run.)
-RECORD_IN_RENDER = 0  # 1: `_render_buffer` appends to the record, so `end_capture` records (F17).  0: repaired.
+# Values match /repo as it is now: all defects are repaired there (RECORD_IN_RENDER, MERGE_CTL: 0 is the repaired value; ESCAPE_HREF,
+# CAPTURE_MARKS: 1 is the repaired value; the other value is rich 9.10.0 as found).
+# (For checking another checkout:  VERIF_REPO=<worktree> VERIF_C15_FLAGS=<4 digits> ./check C15  overrides them for one run.)
+RECORD_IN_RENDER = 0  # 1: `_render_buffer` appends to the record, so `end_capture` records (F17).  0: repaired (fix 114bbe8).
 MERGE_CTL = 0  # 0: Segment.simplify never merges into/after a control segment (F18 repaired in b97fe77).
-ESCAPE_HREF = 1  # 0: export_html writes style.link verbatim into href="…".  1: repaired (html.escape).
-CAPTURE_MARKS = 1  # 0: end_capture returns (and empties) the whole thread buffer, so nested blocks steal.  1: repaired.
+ESCAPE_HREF = 1  # 0: export_html writes style.link verbatim into href="…".  1: repaired (html.escape; fix e488480).
+CAPTURE_MARKS = 1  # 0: end_capture returns (and empties) the whole thread buffer, so nested blocks steal.  1: repaired (fix 1202b8a).
 
 if os.environ.get("VERIF_C15_FLAGS"):
     RECORD_IN_RENDER, MERGE_CTL, ESCAPE_HREF, CAPTURE_MARKS = (int(ch) for ch in os.environ["VERIF_C15_FLAGS"])
@@ -744,7 +745,8 @@ def run(ctx):
         "get_html_style(theme) and link are parameters read off the real Style objects for every case (their meaning is C03/C06's subject)",
         "what print/log/rule/out append to the thread's buffer (rendering + split_and_crop_lines) is an input of the model, observed on the real console",
         "escape codes are compared after canonicalisation: link ids stripped, colour parameters of SGR sequences replaced by F/B "
-        "(Style._ansi is cached without the colour system - F7 of C03 - so exact colour codes depend on which console rendered a shared Style first)",
+        "(introduced because in rich 9.10.0 as found Style._ansi was cached without the colour system - F7 of C03, repaired by fix c9ec5a8 - so exact "
+        "colour codes depended on which console rendered a shared Style first; exact colour codes are C03's subject, here they stay canonicalised)",
         "visible text = non-control segment text; generated texts contain no C0 control codes or ESC; control segments contain only escape sequences / C0 codes",
         "single thread; is_jupyter False; no render hooks (Live); pager and save_* are out of scope",
     ]
@@ -862,8 +864,9 @@ MANIFEST = {
     "block returns character for character what the same operations write outside a capture, nothing reaches the file "
     "while the depth is >= 1, nothing is recorded; capture_block_transparent: with the repaired marks a block at any depth "
     "returns its own output and leaves the enclosing block untouched); clear_semantics; reachable_outside_empty. Proved for "
-    "the repaired variant; `old_...` witnesses (by "
-    "evaluation) show today's code violating them. Tie: ~8k (quick) / ~250k (thorough) histories per run executed on real "
+    "the repaired variant, which is what /repo contains now (fixes 114bbe8, e488480, 1202b8a; b97fe77 for simplify); the witnesses "
+    "old_capture_is_recorded, old_href_breaks_html, old_simplify_bell_in_html and nested_capture_steals (by evaluation) show rich 9.10.0 "
+    "as found violating them. Tie: ~8k (quick) / ~250k (thorough) histories per run executed on real "
     "rich.console.Console and on the model (file writes, every return value, final record, buffer and depth compared), plus the "
     "theorems' executable statements evaluated on rich's own outputs with independent oracles (terminal-stream tokenizer, "
     "html.parser, twin console).",
@@ -872,12 +875,13 @@ MANIFEST = {
     "print/log/rule/out append to the buffer (rendering, split_and_crop_lines) is an input observed on the real console, not "
     "modelled. (3) 'Visible text of the file' is stated on structured pieces (escape wrapper / text / control), and HTML tags on "
     "structured fragments for which the string-level stripTags is proved; the string-level reading of ANSI escapes is done by the "
-    "harness tokenizer only. (4) Escape codes are compared after canonicalising link ids and SGR colour parameters (F7 makes exact "
-    "colour codes history dependent). (5) Nested capture blocks: capture_returns_and_withholds / capture_block_transparent speak of "
+    "harness tokenizer only. (4) Escape codes are compared after canonicalising link ids and SGR colour parameters (in rich 9.10.0 as found F7 "
+    "made exact colour codes history dependent; repaired by c9ec5a8, the canonicalisation is kept: exact codes are C03's subject). (5) Nested capture blocks: capture_returns_and_withholds / capture_block_transparent speak of "
     "one block whose direct content has no begin/end; arbitrary nesting follows by composing them but is not stated as one "
-    "theorem. On the code as it is an inner end_capture returns the enclosing block's pending output (witness "
+    "theorem. In rich 9.10.0 as found (before fix 1202b8a) an inner end_capture returned the enclosing block's pending output (witness "
     "nested_capture_steals, finding nested-capture-steals). (6) Only the {code} part of the HTML document is covered by export_html_text; the template is "
     "covered by the correspondence. (7) Single thread, is_jupyter False, no render hooks, pager and save_* out of scope. "
-    "Open findings on today's tree (pending_fixes/C15-*.diff): capture-recorded (F17), html-href-unescaped, nested-capture-steals.",
+    "Findings of this property, all repaired in /repo: capture-recorded (F17, fix 114bbe8), html-href-unescaped (fix e488480), "
+    "nested-capture-steals (fix 1202b8a); the flag constants hold the repaired values.",
     "design_ref": "DESIGN.md section 7, C15",
 }
